@@ -9,7 +9,12 @@ here is a proof obligation, axiom-audited by `bin/check C06`).
   instances: window|aggregate (count and time windows, any transparent batch receiver, InfluxQL sum/count by name),
   groupBy|stateCount (in the property's own terms: groups by measurement and tag values), groupBy|window|aggregate;
 * receivers transcribed in this round: windowByTime (C03's proved model, imported), the alert node with its history
-  ring and flapping flag (for EVERY flapping decision function), the batch side of the alert node.
+  ring and flapping flag (for EVERY flapping decision function), the batch side of the alert node;
+* stateless STAGES behind a groupBy that rebuild a point's group identity (`Kap.C06.Stage`: delete of group-by tags, a
+  further groupBy, default / eval writing a tag): `delete_keeps_by_measurement`, `delete_regroups_by_remaining_tags`,
+  `stage_grouping_as_spec` (every stage leaves the grouping the spec clause `groupingOkAfter` asks for),
+  `groupBy_stages_node_isolated` (groupBy | stages | NODE in the property's own terms) and the counterexample
+  `delete_without_flag_merges_measurements` (a delete that rebuilds the dimensions without the by-name flag).
 -/
 import Kap.Props.C06
 import Kap.Proofs.C06Pipe
@@ -359,5 +364,147 @@ example :
       (fun o => (o.1, o.2.proj)) = [("host=a", "i:1"), ("host=b", "i:1"), ("host=a", "i:2"), ("host=b", "i:-1")] := by
   decide
 end
+
+/-! ## Stateless stages behind a groupBy that rebuild a point's group identity
+
+`|delete().tag(<group-by tag>)`, a further `|groupBy(…)`, `|default().tag(…)`, `|eval(…).tags(…)`: each rewrites what the
+id of a point is computed from (`Kap.C06.Stage`, tied to `DeleteNode.Point` / `GroupByNode.Point` / `DefaultNode.Point` /
+`EvalNode` by the relational runs with a stage between the groupBy and NODE). What must survive is the GROUPING: by
+measurement if the task asked for it, and the configured tags minus the deleted ones (`groupingOkAfter`). -/
+
+/-- **delete keeps "grouped by measurement"** (`DeleteNode.Point`, both branches): behind `|delete().tag(…)` a point is
+grouped by measurement exactly when it was, its group-by tags are the previous ones that were not deleted (all of them
+when no dimension is deleted), its tags are the undeleted ones and its measurement is unchanged. -/
+theorem delete_keeps_by_measurement (del : List String) (p : GPoint) :
+    ((Stage.delete del).apply p).byName = p.byName ∧
+    ((Stage.delete del).apply p).dims = p.dims.filter (fun d => !del.contains d) ∧
+    ((Stage.delete del).apply p).tags = deleteTags del p.tags ∧ ((Stage.delete del).apply p).name = p.name :=
+  delete_apply_fields del p
+
+/-- the transcribed delete satisfies the spec clause `groupingOkAfter` for every configuration and every point with a
+strictly sorted dimension list (what every groupBy produces: `named_dimensions_sorted`) -/
+theorem delete_grouping_as_spec (del : List String) (p : GPoint) (hs : sortedLt p.dims = true) :
+    groupingOkAfter (some (.delete del)) (p.byName, p.dims)
+      (((Stage.delete del).apply p).byName, ((Stage.delete del).apply p).dims) = true := by
+  obtain ⟨hb, hd, -, -⟩ := delete_keeps_by_measurement del p
+  rw [hb, hd]
+  unfold groupingOkAfter
+  simp only [Bool.and_eq_true, beq_self_eq_true, true_and, List.all_eq_true, List.mem_filter, Bool.or_eq_true,
+    Bool.not_eq_true', and_imp]
+  refine ⟨⟨?_, ?_⟩, ?_⟩
+  · intro d hd hn
+    exact ⟨by simpa using hd, by simpa using hn⟩
+  · intro d hd
+    by_cases e : d ∈ del
+    · exact Or.inl (by simpa using e)
+    · exact Or.inr (by simp [hd, e])
+  · exact sortedLt_of_pairwise _ ((pairwise_of_sortedLt _ hs).filter _)
+
+/-- **behind a delete, groups are told apart by the measurement (if grouping by it) and the REMAINING group-by tags**:
+two points under the same grouping are in the same group behind `|delete().tag(del…)` exactly when they agree on the
+measurement (when grouping by measurement) and on every group-by tag that was not deleted. -/
+theorem delete_regroups_by_remaining_tags (del : List String) (p q : GPoint)
+    (hb : p.byName = q.byName) (hd : p.dims = q.dims) :
+    sameGroup ((Stage.delete del).apply p) ((Stage.delete del).apply q) = true ↔
+      (p.byName = true → p.name = q.name) ∧
+      ∀ d ∈ p.dims, del.contains d = false → tagVal p.tags d = tagVal q.tags d := by
+  obtain ⟨pb, pd, pt, pn⟩ := delete_keeps_by_measurement del p
+  obtain ⟨qb, qd, qt, qn⟩ := delete_keeps_by_measurement del q
+  rw [sameGroup_iff, pb, qb, pd, qd, pt, qt, pn, qn]
+  constructor
+  · rintro ⟨-, -, hn, hv⟩
+    refine ⟨hn, fun d hdm hc => ?_⟩
+    have := hv d (List.mem_filter.mpr ⟨hdm, by simpa using hc⟩)
+    rwa [tagVal_deleteTags del _ d hc, tagVal_deleteTags del _ d hc] at this
+  · rintro ⟨hn, hv⟩
+    refine ⟨hb, by rw [hd], hn, fun d hdm => ?_⟩
+    obtain ⟨h1, h2⟩ := List.mem_filter.mp hdm
+    have hc : del.contains d = false := by simpa using h2
+    rw [tagVal_deleteTags del _ d hc, tagVal_deleteTags del _ d hc]
+    exact hv d h1 hc
+
+/-- non-vacuity: grouped by measurement, dc and host; `dc` deleted: (cpu, host=A) of two data centres become one group,
+(cpu, host=A) and (mem, host=A) stay two -/
+example :
+    let mk (n dc : String) : GPoint := { byName := true, name := n, tags := [("dc", dc), ("host", "A")], dims := ["dc", "host"] }
+    sameGroup ((Stage.delete ["dc"]).apply (mk "cpu" "1")) ((Stage.delete ["dc"]).apply (mk "cpu" "2")) = true ∧
+    sameGroup ((Stage.delete ["dc"]).apply (mk "cpu" "1")) ((Stage.delete ["dc"]).apply (mk "mem" "1")) = false ∧
+    idOf ((Stage.delete ["dc"]).apply (mk "cpu" "1")) = "cpu\nhost=A" := by
+  decide
+
+/-- **why the flag must be carried over** (counterexample about `deleteDimensionsNoFlag`, i.e. a `deleteDimensions` that
+builds `Dimensions{TagNames: kept}` only): points of two measurements that agree on the remaining tags get ONE id behind
+the delete although the task groups by measurement; the transcribed code keeps them apart, and the spec clause
+`groupingOkAfter` rejects the flagless grouping. -/
+theorem delete_without_flag_merges_measurements :
+    let p : GPoint := { byName := true, name := "cpu", tags := [("dc", "1"), ("host", "A")], dims := ["dc", "host"] }
+    let q : GPoint := { byName := true, name := "mem", tags := [("dc", "1"), ("host", "A")], dims := ["dc", "host"] }
+    sameGroup p q = false ∧
+    idOf (deletePointWith deleteDimensionsNoFlag ["dc"] p) = idOf (deletePointWith deleteDimensionsNoFlag ["dc"] q) ∧
+    idOf ((Stage.delete ["dc"]).apply p) ≠ idOf ((Stage.delete ["dc"]).apply q) ∧
+    groupingOkAfter (some (.delete ["dc"])) (p.byName, p.dims)
+      ((deletePointWith deleteDimensionsNoFlag ["dc"] p).byName, (deletePointWith deleteDimensionsNoFlag ["dc"] p).dims) = false := by
+  decide
+
+/-- a further named groupBy satisfies the spec clause: the newly configured dimensions, each once and sorted; by
+measurement if it asks for it, and not if neither it nor the earlier grouping did -/
+theorem groupBy_stage_grouping_as_spec (b : Bool) (dims : List String) (p : GPoint) :
+    groupingOkAfter (some (.groupBy b dims)) (p.byName, p.dims)
+      (((Stage.groupBy b dims).apply p).byName, ((Stage.groupBy b dims).apply p).dims) = true := by
+  have hs := (named_dimensions_sorted dims []).1
+  simp only [groupingOkAfter, Stage.apply, computeTagNames, dimsOk, Bool.false_eq_true, ↓reduceIte, Bool.and_eq_true,
+    List.all_eq_true, hs, and_true]
+  refine ⟨by cases b <;> cases p.byName <;> simp, ?_, ?_⟩
+  · intro t ht
+    have := (mem_determineTagNames dims [] t).mp ht
+    simpa using this.1
+  · intro t ht
+    have : t ∈ determineTagNames dims [] := (mem_determineTagNames dims [] t).mpr ⟨by simpa using ht, by simp⟩
+    simpa using this
+
+/-- **every transcribed stage leaves the grouping the property asks for** (`groupingOkAfter`), for every configuration
+and every point whose dimension list is strictly sorted -/
+theorem stage_grouping_as_spec (st : Stage) (p : GPoint) (hs : sortedLt p.dims = true) :
+    groupingOkAfter (some st) (p.byName, p.dims) ((st.apply p).byName, (st.apply p).dims) = true := by
+  cases st with
+  | delete del => exact delete_grouping_as_spec del p hs
+  | groupBy b dims => exact groupBy_stage_grouping_as_spec b dims p
+  | defaultTag k v => simp only [groupingOkAfter, Stage.apply]; split <;> simp
+  | evalTag k v => simp [Stage.apply, groupingOkAfter]
+
+/-- **groupBy | stages | NODE isolated, in the property's own terms**: for every `groupBy` configuration, every list of
+stateless stages behind it (delete of group-by tags, further groupBys, default / eval writing tags), every receiver with
+transparent node-wide state, every stream of points that are clean where they reach NODE and every point `g` of it: the
+output labelled with the id `g` carries behind the stages is the output of the run fed exactly the points that, behind
+the stages, agree with `g` on the measurement (if grouping by it) and on every remaining group-by tag value. -/
+theorem groupBy_stages_node_isolated {Γ σ ο : Type} (N : Node Γ σ Pt ο) (I : Γ → Prop) (T : Transparent N I)
+    (γ : Γ) (hγ : I γ) (byName star : Bool) (dims excl : List String) (sts : List Stage)
+    (pts : List RawPt) (g : RawPt)
+    (hg : cleanPoint (applyStages sts (groupByGPoint byName star dims excl g)) = true)
+    (hc : ∀ q ∈ pts, cleanPoint (applyStages sts (groupByGPoint byName star dims excl q)) = true) :
+    let fin := fun q => applyStages sts (groupByGPoint byName star dims excl q)
+    (runNode N γ (groupedItems (fun q => idOf (fin q)) (·.2) pts)).filter (fun o => o.1 == idOf (fin g)) =
+      runNode N γ (groupedItems (fun q => idOf (fin q)) (·.2) (pts.filter (fun q => sameGroup (fin q) (fin g)))) := by
+  intro fin
+  rw [groupBy_then_node_isolated N I T γ hγ]
+  congr 2
+  apply List.filter_congr
+  intro q hq
+  have := groupid_injective_partial (fin q) (fin g) (applyStages_byName sts _ _ rfl) (hc q hq) hg
+  cases h : sameGroup (fin q) (fin g)
+  · have : ¬ idOf (fin q) = idOf (fin g) := fun e => by rw [this.mp e] at h; cases h
+    simp [this]
+  · simp [this.mpr h]
+
+/-- non-vacuity of `groupBy_stages_node_isolated`: groupBy('dc','host').byMeasurement() | delete().tag('dc') |
+stateCount: cpu and mem agree on host=A and keep separate counters; the two data centres of cpu share one -/
+example :
+    let q (n dc : String) (t : Int) : RawPt := ((n, [("dc", dc), ("host", "A")]), { name := n, key := n, v := .int 9, time := t })
+    let pts := [q "cpu" "1" 1, q "mem" "1" 1, q "cpu" "2" 2, q "mem" "1" 2]
+    let fin := fun x => applyStages [Stage.delete ["dc"]] (groupByGPoint true false ["dc", "host"] [] x)
+    pts.all (fun x => cleanPoint (fin x)) = true ∧
+    (runNode (stateCountNode 5) () (groupedItems (fun x => idOf (fin x)) (·.2) pts)).map (fun o => (o.1, o.2.proj)) =
+      [("cpu\nhost=A", "i:1"), ("mem\nhost=A", "i:1"), ("cpu\nhost=A", "i:2"), ("mem\nhost=A", "i:2")] := by
+  decide
 
 end Kap.Props.C06Pipe
